@@ -137,6 +137,25 @@ def generate(tier, seed):
     P = np.array([[0, 0], [1, 0], [0, 1], [8, 8]], dtype=float).T
     T = np.array([[0, 1, 2], [1, 2, 3]]).T
     add('tri', 'MeshTri1', P, T, [(0,), (1,), (0, 1)])
+    # the same, STRONGLY stretched (closure of several dozen to hundreds of bisections: every work array of the tetrahedral
+    # algorithm has to grow).  The exact coordinates would overflow TLC's integers, so these scenarios are judged on a
+    # piecewise affine image with small integer vertices (refine_common.ModelMap): apex (far, far, far) -> (1, 1, 1).
+    n0 = len(recs)
+    for far in ((40, 100, 400) if thorough else (48,)):
+        P = np.array([[0, 0, 0], [1, 0, 0], [0, 1, 0], [0, 0, 1], [far, far, far]], dtype=float).T
+        T = np.array([[0, 1, 2, 3], [1, 2, 3, 4]]).T
+        add('tet', 'MeshTet1', P, T, [(0,), (1,)] if not thorough else [(0,), (1,), (0, 1)])
+    for r in recs[n0:]:
+        r['model_p'] = [[0, 1, 0, 0, 1], [0, 0, 1, 0, 1], [0, 0, 0, 1, 1]]
+        r['family'] = 'stretched-model'
+    n0 = len(recs)
+    for far in ((64, 500) if thorough else (64,)):
+        P = np.array([[0, 0], [1, 0], [0, 1], [far, far]], dtype=float).T
+        T = np.array([[0, 1, 2], [1, 2, 3]]).T
+        add('tri', 'MeshTri1', P, T, [(0,), (1,)])
+    for r in recs[n0:]:
+        r['model_p'] = [[0, 1, 0, 1], [0, 0, 1, 1]]
+        r['family'] = 'stretched-model'
     # trailing points used by no cell (stray nodes of a mesh file)
     for kind_, cls_, (p_, t_) in (('line', 'MeshLine1', U.line_points([0, 1, 2, 3])), ('tri', 'MeshTri1', U.tri_lattice(2, 1, (0, 1))),
                                   ('tet', 'MeshTet1', U.tet_cubes(1, 5))):
